@@ -5057,7 +5057,8 @@ func reduceBinaryExprDurationLHS(op Token, lhs *DurationLiteral, rhs Expr, loc *
 		case MUL:
 			return &DurationLiteral{Val: lhs.Val * time.Duration(rhs.Val)}
 		case DIV:
-			if rhs.Val == 0 {
+			// The divisor is truncated to whole nanoseconds, so test it after the conversion.
+			if time.Duration(rhs.Val) == 0 {
 				return &DurationLiteral{Val: 0}
 			}
 			return &DurationLiteral{Val: lhs.Val / time.Duration(rhs.Val)}
